@@ -218,4 +218,12 @@ def run(tier: str) -> Run:
                     detail = {'coordinate_requested': call_['target'], 'graph_is_the_beamline_graph': same_graph,
                               'returns_the_derived_coordinate_unchanged': same_value, 'lossy_conversions': lossy[:2]}
                 r7.check(ok, inst, loc(afi), detail, key=f'accessor:{name}')
+
+    # ---- R8: the geometry kernels answer from their arguments alone ------------------------------------------------------
+    r8 = run.rule('R8', 'results do not depend on call history: two-call histories of the geometry kernels in one world (another kernel first, '
+                        'other units, the same variables updated in place, new variables holding the same values): the second call returns '
+                        'what it returns in a fresh interpreter; no memoised object is handed out', 7)
+    from .common import history_free, kernel_histories
+    kfis = [repo.func('conversion.beamline', n_) for n_ in [*GEOM, 'two_theta']]
+    history_free(repo, kfis, r8, histories=kernel_histories(repo, kfis))
     return run
